@@ -49,6 +49,9 @@ var groups = map[string]map[string]string{
 	"str":  {"a": "s", "o": "os", "s": "ss", "m": "msi"},
 	"uuid": {"a": "u", "o": "ou", "s": "su", "m": "mus"},
 	"real": {"a": "r", "o": "or", "s": "sr", "m": "msr"},
+	// the set column has a bound (1 < max < unlimited)
+	"bint": {"a": "i", "o": "oi", "s": "bi", "m": "mis"},
+	"bstr": {"a": "s", "o": "os", "s": "bs", "m": "msi"},
 }
 
 func normList(x interface{}) []interface{} {
@@ -200,7 +203,7 @@ func normVal(op MOp) interface{} {
 func (e *Env) RunMerge(c MCase, emit func(map[string]interface{}) error) error {
 	const u = "u1"
 	ru := e.Ctx.Tok.ToReal(u)
-	for _, gname := range []string{"int", "str", "uuid", "real"} {
+	for _, gname := range []string{"int", "str", "uuid", "real", "bint", "bstr"} {
 		g := groups[gname]
 		empty := MRow{O: []interface{}{}, S: []interface{}{}, M: []interface{}{}}
 		ev := map[string]interface{}{"ev": "merge", "group": gname, "orig": c.Orig, "ops": c.Ops, "err": "", "n": 0,
